@@ -111,7 +111,7 @@ def fn_Word_func0 : List Line := [
   (1, "return", "nil")   -- word: success
 ]
 
-/-- `pars.Head` (first member of `Exact`) — `Mod.exact` / `tryLocation`: "on a fresh state (`Head` holds)": the models start `Exact` parsers on `⟨input, []⟩` only, where the position is (0, 0) -/
+/-- `pars.Head` (first member of `Exact`) — `ModParse.exact` / `tryLocation`: "on a fresh state (`Head` holds)": the models start `Exact` parsers on `⟨input, []⟩` only, where the position is (0, 0) -/
 def fn_Head : List Line := [
   (0, "func", "(state *State, result *Result) error"),
   (1, "if", "!state.Position().Head()"),   -- exact: holds on a fresh state — `Position.Head` on (0, 0)
@@ -119,7 +119,7 @@ def fn_Head : List Line := [
   (1, "return", "nil")   -- exact: `Head` succeeds and consumes nothing
 ]
 
-/-- `pars.End` — `Mod.atEnd`, `Fasta.endP`: succeeds iff no byte is left -/
+/-- `pars.End` — `ModParse.atEnd`, `Fasta.endP`: succeeds iff no byte is left -/
 def fn_End : List Line := [
   (0, "func", "(state *State, result *Result) error"),
   (1, "if", "state.Request(1) == nil"),   -- atEnd / endP: `match (← getS).rest with` — `Request(1)` succeeds iff a byte is left (`Pars.request 1`)
@@ -127,7 +127,7 @@ def fn_End : List Line := [
   (1, "return", "nil")   -- atEnd / endP: `| [] => pure ()`
 ]
 
-/-- `pars.Byte(c…)` — `Mod.byte c` (one byte; gts calls it with exactly one argument: `'^'`, `'$'`, `':'`, `')'`, and through `AsParser` for byte members of `Seq` / `Any`); set-up = error texts -/
+/-- `pars.Byte(c…)` — `ModParse.byte c` (one byte; gts calls it with exactly one argument: `'^'`, `'$'`, `':'`, `')'`, and through `AsParser` for byte members of `Seq` / `Any`); set-up = error texts -/
 def fn_Byte : List Line := [
   (0, "func", "(bb0 ...byte) Parser"),
   (1, "switch", "len(bb0)"),   -- byte: gts takes `case 1` only
@@ -158,7 +158,7 @@ def fn_Byte_func0 : List Line := [
   (1, "return", "nil")
 ]
 
-/-- the parser `pars.Byte(c)` returns — `Mod.byte c`: `let d ← next; if d != c then fail; advance1` -/
+/-- the parser `pars.Byte(c)` returns — `ModParse.byte c`: `let d ← next; if d != c then fail; advance1` -/
 def fn_Byte_func1 : List Line := [
   (0, "func", "(state *State, result *Result) error"),
   (1, "assign", "v5, v6 := Next(state)"),   -- byte: `let d ← next`
@@ -227,7 +227,7 @@ def fn_Dry_func0 : List Line := [
   (1, "return", "v1")   -- fieldPadding: `| _ => do clear; fail` when `EOL` failed
 ]
 
-/-- `pars.Seq(q…)` — `Mod.seq2` / `seq3`, `LocParse.*` (hand-written sequences), `GenBank.locusParser`; set-up = error text and `AsParsers` -/
+/-- `pars.Seq(q…)` — `ModParse.seq2` / `seq3`, `LocParse.*` (hand-written sequences), `GenBank.locusParser`; set-up = error text and `AsParsers` -/
 def fn_Seq : List Line := [
   (0, "func", "(qq0 ...interface{}) Parser"),
   (1, "assign", "v0 := fmt.Sprintf(\"Seq(%d)\", len(qq0))"),   -- error text only
@@ -235,7 +235,7 @@ def fn_Seq : List Line := [
   (1, "return", "func0")   -- seq2 (whole body)
 ]
 
-/-- the parser `pars.Seq(q…)` returns — `Mod.seq2`: `push`; every member in order, the first failure `pop`s (whatever frame is then on top) and fails; `drop`; the children -/
+/-- the parser `pars.Seq(q…)` returns — `ModParse.seq2`: `push`; every member in order, the first failure `pop`s (whatever frame is then on top) and fails; `drop`; the children -/
 def fn_Seq_func0 : List Line := [
   (0, "func", "(state *State, result *Result) error"),
   (1, "assign", "v2 := make([]Result, len(v1))"),   -- seq2: the results `(a, b)`
@@ -312,7 +312,7 @@ def fn_Many_func0 : List Line := [
   (1, "return", "nil")   -- qualifiers: never fails
 ]
 
-/-- `pars.Exact(q)` — `Mod.exact`: `mapP (seq2 p atEnd) (·.1)` on a fresh state (`Head` holds) -/
+/-- `pars.Exact(q)` — `ModParse.exact`: `mapP (seq2 p atEnd) (·.1)` on a fresh state (`Head` holds) -/
 def fn_Exact : List Line := [
   (0, "func", "(q0 interface{}) Parser"),
   (1, "assign", "v0 := AsParser(q0)"),   -- exact: the argument through `AsParser`
@@ -646,13 +646,13 @@ def fn_Quoted : List Line := [
   (1, "return", "Between(b0, b0)")   -- quoted: `Between(c, c)`
 ]
 
-/-- `pars.Child(i)` — `Mod.mapP … (·.1)` and the like: the `i`-th child of a `Seq` result -/
+/-- `pars.Child(i)` — `ModParse.mapP … (·.1)` and the like: the `i`-th child of a `Seq` result -/
 def fn_Child : List Line := [
   (0, "func", "(n0 int) Map"),
   (1, "return", "func0")   -- mapP: the mapping
 ]
 
-/-- the mapping `pars.Child(i)` returns — `Mod.mapP`: "a mapping that cannot fail": the results it is applied to come from `Seq` and have children -/
+/-- the mapping `pars.Child(i)` returns — `ModParse.mapP`: "a mapping that cannot fail": the results it is applied to come from `Seq` and have children -/
 def fn_Child_func0 : List Line := [
   (0, "func", "(result *Result) error"),
   (1, "if", "result.Children == nil"),   -- not reachable behind a `Seq`
@@ -709,13 +709,13 @@ def fn_Map : List Line := [
   (0, "type", "func(*Result) error")
 ]
 
-/-- `Parser.Map(f)` — `Mod.mapP` -/
+/-- `Parser.Map(f)` — `ModParse.mapP` -/
 def fn_Parser_Map : List Line := [
   (0, "func", "(recv Parser) (f0 Map) Parser"),
   (1, "return", "func0")   -- mapP (whole body)
 ]
 
-/-- the parser `p.Map(f)` returns — `Mod.mapP`: `push; match ← attempt p with | none => do pop; fail | some v => do drop; pure (f v)`; a failing mapping (`genbankLocusParser/func0`: the date) leaves the position BEHIND the parser — `GenBank.locusBack` -/
+/-- the parser `p.Map(f)` returns — `ModParse.mapP`: `push; match ← attempt p with | none => do pop; fail | some v => do drop; pure (f v)`; a failing mapping (`genbankLocusParser/func0`: the date) leaves the position BEHIND the parser — `GenBank.locusBack` -/
 def fn_Parser_Map_func0 : List Line := [
   (0, "func", "(state *State, result *Result) error"),
   (1, "state", "state.Push()"),   -- mapP: `push`
@@ -726,7 +726,7 @@ def fn_Parser_Map_func0 : List Line := [
   (1, "return", "f0(result)")   -- mapP: `pure (f v)` (the error of the mapping, if any, is returned with the frame already dropped)
 ]
 
-/-- `p.Child(i)` — `Mod.mapP p (·.1)` and the like -/
+/-- `p.Child(i)` — `ModParse.mapP p (·.1)` and the like -/
 def fn_Parser_Child : List Line := [
   (0, "func", "(recv Parser) (n0 int) Parser"),
   (1, "return", "recv.Map(Child(n0))")   -- mapP
@@ -738,13 +738,13 @@ def fn_Parser_Children : List Line := [
   (1, "return", "recv.Map(Children(nn0...))")   -- locusParser: `push; push` — the second frame is this `Map`
 ]
 
-/-- `p.Bind(v)` — `Mod.parseMark`: `Byte(c).Bind(0)` answers 0 -/
+/-- `p.Bind(v)` — `ModParse.parseMark`: `Byte(c).Bind(0)` answers 0 -/
 def fn_Parser_Bind : List Line := [
   (0, "func", "(recv Parser) (q0 interface{}) Parser"),
   (1, "return", "func0")   -- parseMark (whole body)
 ]
 
-/-- the parser `p.Bind(v)` returns — `Mod.parseMark`: no frame of its own, the value replaces the result -/
+/-- the parser `p.Bind(v)` returns — `ModParse.parseMark`: no frame of its own, the value replaces the result -/
 def fn_Parser_Bind_func0 : List Line := [
   (0, "func", "(state *State, result *Result) error"),
   (1, "if", "v0 := recv(state, result); v0 != nil"),   -- parseMark: the marker byte
@@ -775,7 +775,7 @@ def fn_Parser_Parse : List Line := [
   (1, "return", "v0, v1")   -- run': value and verdict
 ]
 
-/-- `pars.AsParser(q)` — how a literal member of `Seq` / `Any` becomes a parser: `string` → `Pars.lit (str s)`, `byte` → `Mod.byte`, a rune literal such as `'>'` → `Fasta.gt`, a parser stays what it is -/
+/-- `pars.AsParser(q)` — how a literal member of `Seq` / `Any` becomes a parser: `string` → `Pars.lit (str s)`, `byte` → `ModParse.byte`, a rune literal such as `'>'` → `Fasta.gt`, a parser stays what it is -/
 def fn_AsParser : List Line := [
   (0, "func", "(q0 interface{}) Parser"),
   (1, "typeswitch", "v0 := q0.(type)"),   -- by the dynamic type
@@ -823,7 +823,7 @@ def fn_Position : List Line := [
   (1, "field", "Byte int")
 ]
 
-/-- `Position.Head` — `Mod.exact`: holds on a fresh state -/
+/-- `Position.Head` — `ModParse.exact`: holds on a fresh state -/
 def fn_Position_Head : List Line := [
   (0, "func", "(recv Position) () bool"),
   (1, "return", "recv.Line == 0 && recv.Byte == 0")   -- exact: (0, 0)
@@ -901,7 +901,7 @@ def fn_Result_SetValue : List Line := [
   (1, "assign", "recv.Children = nil")   -- nothing else stays
 ]
 
-/-- `Result.SetChildren` — the tuple of `Mod.seq2` / `seq3` -/
+/-- `Result.SetChildren` — the tuple of `ModParse.seq2` / `seq3` -/
 def fn_Result_SetChildren : List Line := [
   (0, "func", "(recv *Result) (rr0 []Result)"),
   (1, "assign", "recv.Token = nil"),   -- nothing else stays
@@ -942,7 +942,7 @@ def fn_readRune : List Line := [
   (1, "return", "utf8.RuneError, errors.New(\"unable to read valid rune\")")
 ]
 
-/-- `pars.Rune(c…)` — `Fasta.gt` / `Mod.byte c` (what a rune constant member of `Seq` / `Any` becomes; gts: one ASCII character each) -/
+/-- `pars.Rune(c…)` — `Fasta.gt` / `ModParse.byte c` (what a rune constant member of `Seq` / `Any` becomes; gts: one ASCII character each) -/
 def fn_Rune : List Line := [
   (0, "func", "(cc0 ...rune) Parser"),
   (1, "switch", "len(cc0)"),   -- gts takes `case 1` only
@@ -977,7 +977,7 @@ def fn_Rune_func0 : List Line := [
   (1, "return", "nil")
 ]
 
-/-- the parser `pars.Rune(c)` returns — `Fasta.gt` (c = `>`), `Mod.byte c`: the encoding of the rune (one byte) must come next; nothing moves on a failure -/
+/-- the parser `pars.Rune(c)` returns — `Fasta.gt` (c = `>`), `ModParse.byte c`: the encoding of the rune (one byte) must come next; nothing moves on a failure -/
 def fn_Rune_func1 : List Line := [
   (0, "func", "(state *State, result *Result) error"),
   (1, "if", "v8 := state.Request(v6); v8 != nil"),   -- gt: `| [] => fail`
@@ -1159,7 +1159,7 @@ def fn_State_Request : List Line := [
   (3, "return", "nil")   -- request: `pure (s.rest.take n)`
 ]
 
-/-- `State.Advance` — `Pars.advance1` / `advanceN n`: `rest := s.rest.drop n` behind a `Request(n)`; panics without a request (no parser of go-pars or gts calls it so: `Gts.Bridge.advance_sim` has the hypothesis `0 ≤ end`) -/
+/-- `State.Advance` — `Pars.advance1` / `advanceN n`: `rest := s.rest.drop n` behind a `Request(n)`; panics without a request (no parser of go-pars or gts calls it so: `Gts.Bridge.advance_sim` has the hypothesis `Ready`; `advance_without_request_panics`) -/
 def fn_State_Advance : List Line := [
   (0, "func", "(recv *State) ()"),
   (1, "if", "recv.end < 0"),   -- a call without a request in front
